@@ -276,12 +276,33 @@ func (w *streamWriter) write(ctx context.Context, req WriterRequest) error {
 		}
 	}
 	if w.Mode.Stream() {
+		// A series for a channel this writer never opened carries no authority at all,
+		// so it must not reach streamers any more than a series for a channel the
+		// writer lost control of.
+		for rawI, k := range req.Frame.RawKeys() {
+			if !req.Frame.ShouldExcludeRaw(rawI) && !w.holds(k) {
+				excludeUnauthorized = append(excludeUnauthorized, k)
+			}
+		}
 		w.relay.Inlet() <- relayResponse{
 			frame: req.Frame.ExcludeKeys(excludeUnauthorized),
 			group: w.ControlSubject.Group,
 		}
 	}
 	return accumulatedErr
+}
+
+// holds reports whether the writer opened the channel with the given key.
+func (w *streamWriter) holds(k ChannelKey) bool {
+	if _, ok := w.virtual.internal[k]; ok {
+		return true
+	}
+	for _, idx := range w.internal {
+		if _, ok := idx.internal[k]; ok {
+			return true
+		}
+	}
+	return false
 }
 
 // autoStamp injects a TimeStamp series for each idxWriter whose index channel is
